@@ -578,7 +578,7 @@ def run(tier):
         except (RuntimeError, ValueError) as e:
             die_broken("base image: %s" % e)
         rng = random.Random(seed())
-        n = 672 if tier == "quick" else 13440            # multiples of |damage kinds| x |feature configurations| = 224 (each journal: 3 replays + up to 3 of its second life)
+        n = 672 if tier == "quick" else 4480            # multiples of |damage kinds| x |feature configurations| = 224 (each journal: 3 replays + up to 3 of its second life)
         off = (seed() * 7919) % 224
         toff = (seed() * 104729) % (len(S.TID_KINDS) * len(S.TID_POS))      # stratum of the tid base: cycle of 33, co-prime with the 224
         journals = []
